@@ -5,19 +5,20 @@ from vlib import Case, Stream
 import c07gs as gs
 import c07notify as nt
 import c07cfg as cf
+import c07svc as sv
 import c11 as rd      # the reduce generators / model driver (stream reduce-history)
 import os
 from vlib import BUILD, model_cmd as _model_cmd
 
 ID = "C07"
-LEAN_MODULES = ['HgVerif.Props.C07', 'HgVerif.Model.Engine', 'HgVerif.Model.Extracted'] + gs.LEAN_MODULES + list(nt.LEAN_MODULES) + list(cf.LEAN_MODULES) + ['HgVerif.Model.ReduceKeyed', 'HgVerif.Model.Slots']
-THEOREMS = ['HgVerif.Runs.interleave_independent', 'HgVerif.Runs.intern_history_free', 'HgVerif.Runs.run_is_function'] + gs.THEOREMS + list(nt.THEOREMS) + list(cf.THEOREMS)
-CXX_TARGETS = ['hgv_engine'] + gs.CXX_TARGETS + list(nt.CXX_TARGETS) + list(cf.CXX_TARGETS) + ['hgv_reduce']
+LEAN_MODULES = ['HgVerif.Props.C07', 'HgVerif.Model.Engine', 'HgVerif.Model.Extracted'] + gs.LEAN_MODULES + list(nt.LEAN_MODULES) + list(cf.LEAN_MODULES) + ['HgVerif.Model.ReduceKeyed', 'HgVerif.Model.Slots'] + list(sv.LEAN_MODULES)
+THEOREMS = ['HgVerif.Runs.interleave_independent', 'HgVerif.Runs.intern_history_free', 'HgVerif.Runs.run_is_function'] + gs.THEOREMS + list(nt.THEOREMS) + list(cf.THEOREMS) + list(sv.THEOREMS)
+CXX_TARGETS = ['hgv_engine'] + gs.CXX_TARGETS + list(nt.CXX_TARGETS) + list(cf.CXX_TARGETS) + ['hgv_reduce'] + list(sv.CXX_TARGETS)
 REDUCE = os.path.join(BUILD, "hgv_reduce")
 USES_EXTRACT = True
-RULE = "programs from every engine family, each run (a) once, (b) 1-3 more times from the SAME executor builder, (c) on 2-8 threads concurrently (each thread wiring and running it), and (d) a quarter of them again at the end of the process after all other builds and runs; every trace must be byte-identical to the first and to the model's; non-trivial = >=2 cycles with user code; distinct by program text. Stream reduce-history: 2-3 reduce graphs of DIFFERING result kinds (scalar TS<int>: direct publication; set TSS<int>: keyed publication; the first and the last of a case always differ) built and run one after the other in ONE process of hgv_reduce; the LAST one's output lines must be byte-identical to the same graph run alone in a FRESH process, and to the C11 model driver. " + gs.RULE + " " + nt.RULE + " " + cf.RULE
-TRUSTED = ['no ThreadSanitizer build: data races that do not change a trace are invisible to this check'] + list(gs.TRUSTED) + list(nt.TRUSTED) + list(cf.TRUSTED)
-ASSUMPTIONS = ["the harness nodes' own tables are read-only during runs; per-run logs and fault counters are thread-local"] + list(gs.ASSUMPTIONS) + list(nt.ASSUMPTIONS) + list(cf.ASSUMPTIONS)
+RULE = "programs from every engine family, each run (a) once, (b) 1-3 more times from the SAME executor builder, (c) on 2-8 threads concurrently (each thread wiring and running it), and (d) a quarter of them again at the end of the process after all other builds and runs; every trace must be byte-identical to the first and to the model's; non-trivial = >=2 cycles with user code; distinct by program text. Stream reduce-history: 2-3 reduce graphs of DIFFERING result kinds (scalar TS<int>: direct publication; set TSS<int>: keyed publication; the first and the last of a case always differ) built and run one after the other in ONE process of hgv_reduce; the LAST one's output lines must be byte-identical to the same graph run alone in a FRESH process, and to the C11 model driver. " + gs.RULE + " " + nt.RULE + " " + cf.RULE + " " + sv.RULE
+TRUSTED = ['no ThreadSanitizer build: data races that do not change a trace are invisible to this check'] + list(gs.TRUSTED) + list(nt.TRUSTED) + list(cf.TRUSTED) + list(sv.TRUSTED)
+ASSUMPTIONS = ["the harness nodes' own tables are read-only during runs; per-run logs and fault counters are thread-local"] + list(gs.ASSUMPTIONS) + list(nt.ASSUMPTIONS) + list(cf.ASSUMPTIONS) + list(sv.ASSUMPTIONS)
 TECHNIQUE = 'Lean 4 proof (interleaving independence of state-owning executors, history-free intern tables) + differential runs: repeat, builder reuse, process history, concurrent threads, all compared with one model trace'
 LEVEL_TEXT = ("Kernel-checked: executors that own their state produce, under every interleaving, the trace they produce alone; registry lookups depend on the key only, not on registration history; the engine model's run is a function of the program (no wall-clock term exists in it); for the GlobalState / record-replay harness layer, modelled as coded: the trace a run records does not depend on what the selected state held before (any prior buffers, any history of runs, copy-backs and seeds), keys a run does not own are untouched, re-running after copy-back is a fixpoint, further executors of one builder observe the same (run_trace_independent_of_prior_state, history_irrelevant, run_preserves_other_keys, rerun_idempotent, reuse_same_trace); the persistent :memory: sink appends by contract (persistent_sink_appends). PARTIAL: that the C++ runtime has no hidden shared mutable state is established only by the differential runs (same builder reused, after other runs, on concurrent threads), not by proof."
               ' One-shot evaluation notifications (Props/C07Notify.lean, stream notify): the trace of a run does not depend on the runs made earlier in the process or on the thread, also after a run whose notification callback threw (a failed batch is dropped, nothing is carried into the next run); drain order before = FIFO, after = LIFO, re-entrant registrations fire at the same boundary; a thread-local batch buffer is proved to leak across runs (thread_buffer_leaks: the seeded shape).'
@@ -27,7 +28,15 @@ LEVEL_TEXT = ("Kernel-checked: executors that own their state produce, under eve
               'it resets, overwrites or clears shows after ANY history what it shows first in a fresh process (step_trace_history_free, '
               'run_last_history_free), every other build what a fresh store filled from its printed contents shows (reference_step_reproduces: '
               'the monitor\'s reference); an address-keyed memo of the parsed configuration is proved to leak (addr_memo_leaks_config: the '
-              'seeded shape) while the first step of a process stays right under it (addr_memo_first_step_unaffected).')
+              'seeded shape) while the first step of a process stays right under it (addr_memo_first_step_unaffected).'
+              ' Service transport contexts (Props/C07Svc.lean, stream svcctx): the process-lifetime subscription context tables of '
+              'runtime/service_node.cpp as coded - append-only, find-or-create, the capture key includes the hand-off mode - and the capture / '
+              'source / scan behaviour per cycle: a lookup returns a context with the requested path, offset and mode whatever the table held '
+              '(capture_context_mode_is_requested), the tables only grow and entries never change (registry_append_only, '
+              'registry_entries_never_change), a build-and-run step shows the same in ANY two process states and every step of EVERY history '
+              '(builds, builder reuse, case boundaries) shows what its own recipe determines (build_trace_history_free, '
+              'svc_step_trace_history_free, svc_history_prefix_irrelevant); a key without the mode is proved to leak the first builder\'s mode '
+              '(modeless_key_leaks_mode: the seeded shape) while the first step of a process and other paths stay right under it.')
 LEVEL_NOTE = 'Trusted: Lean kernel; model tied by correspondence. Data races and allocator effects that leave traces unchanged are outside the claim (named runtime behaviour the model cannot exhibit).'
 
 
@@ -76,7 +85,7 @@ def streams(rng, tier, seed):
         rhist.append(Case(L, {"order": order}))
     return [Stream("engine-repro", [ec.ENGINE], ec.model_cmd("Engine"), cases + again, timeout=900),
             Stream("engine-history", [ec.ENGINE], ec.model_cmd("Engine"), hist, timeout=900),
-            Stream("reduce-history", [REDUCE], _model_cmd("C11"), rhist, timeout=900)] + gs.streams(rng, tier, seed) + nt.streams(rng, tier, seed) + cf.streams(rng, tier, seed)
+            Stream("reduce-history", [REDUCE], _model_cmd("C11"), rhist, timeout=900)] + gs.streams(rng, tier, seed) + nt.streams(rng, tier, seed) + cf.streams(rng, tier, seed) + sv.streams(rng, tier, seed)
 
 
 def _option_twin(rng, p):
@@ -175,6 +184,8 @@ def monitor(stream, case, out):
         return nt.monitor(stream, case, out)
     if stream.startswith("gsconfig-"):
         return cf.monitor(stream, case, out)
+    if stream.startswith("svcctx-"):
+        return sv.monitor(stream, case, out)
     if stream == "engine-history":
         return _monitor_history(case, out)
     bad = []
@@ -211,6 +222,8 @@ def features(stream, case, out):
         return nt.features(stream, case, out)
     if stream.startswith("gsconfig-"):
         return cf.features(stream, case, out)
+    if stream.startswith("svcctx-"):
+        return sv.features(stream, case, out)
     if stream == "engine-history":
         segs = ec.split_segments(case.lines)
         f = ["history:%d-programs" % len(segs)]
@@ -236,6 +249,8 @@ def nontrivial(stream, case, out):
         return nt.nontrivial(stream, case, out)
     if stream.startswith("gsconfig-"):
         return cf.nontrivial(stream, case, out)
+    if stream.startswith("svcctx-"):
+        return sv.nontrivial(stream, case, out)
     if stream == "engine-history":
         return sum(1 for l in case.lines if l == "run") >= 2
     return ep.nontrivial(stream, case, [_run_line(case, out)])
@@ -247,6 +262,8 @@ def valid_case(stream, case, impl_out, model_out):
         return len(cfgs) >= 2 and sum(1 for l in case.lines if l == "run") >= 2 and case.lines[-1] == "run"
     if stream.startswith("gsconfig-"):
         return cf.valid_case(stream, case, impl_out, model_out)
+    if stream.startswith("svcctx-"):
+        return sv.valid_case(stream, case, impl_out, model_out)
     if stream.startswith("notify-"):
         f = getattr(nt, "valid_case", None)
         return f(stream, case, impl_out, model_out) if f else True
